@@ -155,7 +155,10 @@ def run(ctx):
     if nest:
         for t in fr.flag_tests(ap):
             if t["flag"] == "LIMIT_SOFTFORK" and ap.dominates(t["set_edge"], nest[0]):
-                under = True
+                # ... and EVERY guard entry passes the depth test when the flag is set
+                every = bool(sp) and ap.dominates(t["block"], sp[0][0]) and \
+                    sp[0][0] not in ap.reach_from([t["set_edge"]], blocked={nest[0]})
+                under = every
     ck.ob("R31c", RP + "apply_op|nesting limit", nest is not None and nest[1] == ({"len(self.softfork_stack)": 1}, -19, ">0") and nest[2] and under,
           "under LIMIT_SOFTFORK a guard is refused iff 20 guards are already open (21 deep fails, 20 succeed)",
           site=ap.where(nest[0]) if nest else ap.where(0), detail=show_norm(nest[1]) if nest else None)
